@@ -31,7 +31,9 @@ Interop(t) ==
                       /\ t.mres[1] = 0
                       /\ t.suite2 = 0 => t.mres[2] = 1        \* the offered session / ticket / PSK is taken up
                       \* 0-RTT: what the independent client wrote as early data is what the server application got, first and intact
-                      /\ t.early > 0 => (t.oearly = 1 /\ t.earlyok = 1)
+                      \* (after a HelloRetryRequest the server has to skip it instead - RFC 8446 4.2.10 - and the handshake completes all the same)
+                      /\ (t.early > 0 /\ t.hrr = 0) => (t.oearly = 1 /\ t.earlyok = 1)
+                      /\ (t.early > 0 /\ t.hrr = 1) => t.oearly = 1
 
 TRun == /\ l <= Len(TraceLog) /\ "infra" \notin DOMAIN Line /\ Interop(Line) /\ l' = l + 1
 TReject == /\ l <= Len(TraceLog) /\ ~ENABLED TRun
